@@ -62,4 +62,56 @@ BLOCKS = {
             ],
         },
     },
+    "_colour_step_ns1": {
+        "function": ("bempp_cl.api.space.space", "FunctionSpace._compute_color_map"),
+        "method": True,
+        "loop": ("self.support_elements", 0),
+        "params": ["element_index", "local2global", "global2local", "color_map", "number_of_support_elements"],
+        "returns": ["color_map"],
+        "contract": {
+            "opaque_ok": True,
+            # the generator passed to next() is not exhausted: an element has fewer distinct neighbour colours than there are support elements (pigeonhole);
+            # not derivable per iteration without cardinalities -- assumed, listed in the evidence (a StopIteration would be a crash, not a wrong colouring)
+            "assume_next_exists": True,
+            "args": {"element_index": ("int",), "local2global": ("arr2", ("N", 1)), "global2local": ("rel",), "color_map": ("arr1",), "number_of_support_elements": ("int",)},
+            "requires": ["0 <= element_index and element_index < N", "len(color_map) == N",
+                         "forall(0, 1, lambda j: 0 <= local2global[element_index, j] and local2global[element_index, j] < len(global2local))",
+                         # the element occurs in its own dof lists (it has at least ... not needed) ; set.remove needs membership, which holds by construction
+                         ],
+            "result": ("arr1",),
+            "ensures": [
+                # greedy step specification (hypothesis of lemma A): a colour in range, unused by every element listed under one of the element's dofs
+                "0 <= result[element_index] and result[element_index] < number_of_support_elements",
+                "forall_any(lambda n, i: not (0 <= n and n < N and n != element_index and ((n, i) in global2local[local2global[element_index, 0]])) or result[element_index] != old_color_map[n])",
+                # frame
+                "forall(0, N, lambda x: x == element_index or result[x] == old_color_map[x])",
+            ],
+        },
+    },
+    "_colour_step_ns3": {
+        "function": ("bempp_cl.api.space.space", "FunctionSpace._compute_color_map"),
+        "method": True,
+        "loop": ("self.support_elements", 0),
+        "params": ["element_index", "local2global", "global2local", "color_map", "number_of_support_elements"],
+        "returns": ["color_map"],
+        "contract": {
+            "opaque_ok": True,
+            # the generator passed to next() is not exhausted: an element has fewer distinct neighbour colours than there are support elements (pigeonhole);
+            # not derivable per iteration without cardinalities -- assumed, listed in the evidence (a StopIteration would be a crash, not a wrong colouring)
+            "assume_next_exists": True,
+            "args": {"element_index": ("int",), "local2global": ("arr2", ("N", 3)), "global2local": ("rel",), "color_map": ("arr1",), "number_of_support_elements": ("int",)},
+            "requires": ["0 <= element_index and element_index < N", "len(color_map) == N",
+                         "forall(0, 3, lambda j: 0 <= local2global[element_index, j] and local2global[element_index, j] < len(global2local))",
+                         # the element occurs in its own dof lists (it has at least ... not needed) ; set.remove needs membership, which holds by construction
+                         ],
+            "result": ("arr1",),
+            "ensures": [
+                # greedy step specification (hypothesis of lemma A): a colour in range, unused by every element listed under one of the element's dofs
+                "0 <= result[element_index] and result[element_index] < number_of_support_elements",
+                "forall_any(lambda n, i: not (0 <= n and n < N and n != element_index and ((n, i) in global2local[local2global[element_index, 0]] or (n, i) in global2local[local2global[element_index, 1]] or (n, i) in global2local[local2global[element_index, 2]])) or result[element_index] != old_color_map[n])",
+                # frame
+                "forall(0, N, lambda x: x == element_index or result[x] == old_color_map[x])",
+            ],
+        },
+    },
 }
